@@ -137,14 +137,17 @@ class Setters(History):
     steps = {'quick': 12, 'thorough': 25}
 
     def params_strategy(self, tier):
-        return specs.domain_spec(1024)
+        # spacings also as python ints (a grid first built from an integer spacing must not stay integer-typed)
+        ints = st.builds(lambda n, v, w: {'length': n, w: v}, specs.length(1024), st.sampled_from([1, 2, 3]), st.sampled_from(['dr', 'dk']))
+        return st.one_of(specs.domain_spec(1024), specs.domain_spec(1024), ints)
 
     def ops(self, tier):
         # probe: transform an array immediately after the assignment, before any grid attribute is read (a lazily rebuilt
         # grid must not be observable through any access path)
         probe = st.one_of(st.none(), specs.array_desc())
-        return {'set_dr': {'value': specs.spacing(), 'probe': probe},
-                'set_dk': {'value': specs.spacing(), 'probe': probe},
+        sp = st.one_of(specs.spacing(), specs.spacing(), specs.spacing(), st.sampled_from([1, 2]))
+        return {'set_dr': {'value': sp, 'probe': probe},
+                'set_dk': {'value': sp, 'probe': probe},
                 'set_length': {'value': specs.length(1024), 'probe': probe},
                 'roundtrip': {'array': specs.array_desc()}}
 
